@@ -17,6 +17,7 @@ func init() {
 			"AF build range bounds (the window a metric query asks the daemon for); FE-CLASS KeyToLabel (a container is selectable under the sanitised name of each label)",
 			"the CLI range rules of C16 (the resolved window is what the containers are asked for)",
 			"PV-ORDER SetFromRecord: attribute maps (the container's labels) are applied after the line's well-known fields on every path",
+			"PV-WHOLE openLog: every successful return follows the ContainerLogs request",
 		},
 		NotDecided: []string{"the Docker daemon's own since/until semantics", "regexp engine semantics", "that strconv/time functions meet their contracts"},
 		Rules: func(r *Run) {
@@ -33,6 +34,7 @@ func init() {
 			ruleKeyToLabel(r) // a container is selectable under the sanitised name of each of its labels
 			ruleTimeParams(r) // the window the CLI resolves is the window the containers are asked for
 			ruleSetFromRecordOrder(r)
+			ruleOpenLogAlwaysAsks(r)
 		},
 	})
 }
